@@ -279,12 +279,21 @@ def cases(fa, test, node_id, positive, _expanded=False):
     if isinstance(t, ast.NamedExpr):
         # `(p := e)` tests e
         return cases(fa, t.value, node_id, positive, _expanded)
+    if isinstance(t, ast.IfExp):
+        # `(a if c else b)` comes out like a when c holds, like b otherwise
+        out = []
+        for (pol, br) in ((True, t.body), (False, t.orelse)):
+            out += [c1 + c2 for c1 in cases(fa, t.test, node_id, pol, _expanded) for c2 in cases(fa, br, node_id, positive, _expanded)]
+        return out
+    if isinstance(t, ast.Constant):
+        # a constant comes out one way only
+        return [[]] if bool(t.value) == positive else []
     if _expanded:
         (txt, pos) = _canon_expanded(t, positive)
         return [[Lit(txt, pos, t, positive, node_id, True)]]
     if isinstance(t, ast.Name):
         e = fa.expand(t, node_id)
-        if isinstance(e, (ast.BoolOp, ast.Compare)) or (isinstance(e, ast.UnaryOp) and isinstance(e.op, ast.Not)):
+        if isinstance(e, (ast.BoolOp, ast.Compare, ast.IfExp)) or (isinstance(e, ast.UnaryOp) and isinstance(e.op, ast.Not)):
             return cases(fa, e, node_id, positive, True)
     (txt, pos) = fa._literal(t, node_id, positive)
     return [[Lit(txt, pos, t, positive, node_id, True)]]
